@@ -18,6 +18,8 @@ def nontrivial(engine, opline):
     if engine == 'block':
         # non-trivial: a transaction line that was admitted (not a begin/end line, not refused at admission)
         return bool(t) and t[0] in ('eth', 'cos')
+    if engine == 'ante':
+        return bool(t) and t[0] == 'ante'
     if engine == 'statedb':
         return bool(t) and not t[0].startswith('w.') and t[0] != 'new'
     return True
@@ -95,6 +97,21 @@ PROPS = {
                      'admission theorem is about the fee checker arithmetic; that the checker runs for every delivered tx is C07/E-ante'],
     ),
 }
+
+ANTE_RULE = 'random transaction shapes (Ethereum-lane base tx with 0-2 of 20 perturbations: memo, timeout, fee amount/denoms, gas limit, extension options of three kinds, non-critical options, signatures, signer infos, payer, granter, unprotected, contract sender, low gas, tip>cap, huge gas limit, creation; Cosmos-lane txs with 1-3 message trees of exec depth 0-5 over send/grant/vesting/eth leaves, signed) x 4 modes through the real Simulate / CheckTx(recheck, new) / FinalizeBlock; non-trivial = every line; distinct by op-line hash'
+PROPS['C07'] = dict(
+    lean_modules=['Model.Ante', 'Properties.C07', 'Facts.Ante'],
+    facts=['*'],
+    theorems=['C07_eth_lane', 'C07_recheck', 'C07_cosmos_lane', 'C07_exclusive', 'C07_handler_unreachable', 'C16_gate',
+              'checkMsgs_sound', 'checkTail_sound', 'checkMsg_sound', 'ethLane_none', 'cosmosLane_none', 'vestingGate_sound',
+              'fact_ante_chain', 'fact_disabled_list', 'fact_nested_cap'],
+    engines=[dict(name='ante', test='TestEngineAnte', quick=350, thorough=4000, thorough_seeds=3)],
+    rule=ANTE_RULE,
+    assumptions=['decorators outside the lane decision (fee deduction, signature verification, sequence, IBC relay, execution set-up) enter as an observed verdict `late`',
+                 'SDK tx.ValidateBasic, MsgEthereumTx.ValidateBasic, AsMessage, Protected are evaluated by the harness with the real functions and passed as booleans',
+                 'messages that dispatch nested messages outside the tx path (gov proposals, ICA host packets) are outside the model, as in the property text',
+                 're-check mode: CometBFT only re-checks bytes that passed check; C07_recheck states what is re-established there'],
+)
 
 NOT_APPLICABLE = {}
 HOOK_COMMITS = ['6892cbf4753434ae03c9f54a2d1a2dc6d5dfb558']
